@@ -239,6 +239,7 @@ def handle (cfg : Cfg) (st : St) (line : String) : St × String :=
   let T := cfg.T
   match (line.trimAscii.toString.splitOn " ").filter (· ≠ "") with
   | ["reset"] => ({ objs := [] }, "ok")
+  | "plot" :: _ => (st, "ok")   -- figures are described by the real side only; coordinates come from the q lines of the block
   -- C18: wlinit nbins rmin rmax ntarget nflatchk flatcrit convLn start ; wlstep idxNew rbits
   | ["wlinit", nb, rmin, rmax, nt, nf, crit, conv, start] =>
     let cfg : WLCfg := { nbins := nb.toNat!, rmin := rmin.toNat!, rmax := rmax.toNat!, ntarget := nt.toNat!,
